@@ -797,7 +797,8 @@ func Main(args []string) int {
 	}
 	malformedKinds := []string{"short-header-close", "datalen-too-big-close", "huge-datalen", "unknown-kinds", "garbage", "bad-replies",
 		"short-reply:g:0", "short-reply:g:3", "short-reply:g:6", "short-reply:X:0", "short-reply:R:0", "short-reply:Y:0", "short-reply:Y:2", "short-reply:C:0",
-		"connect-during-close", "connect-during-close", "connect-during-close"}
+		"connect-during-close", "connect-during-close", "connect-during-close", "connect-during-close", "connect-during-close", "connect-during-close",
+		"connect-during-close", "connect-during-close", "connect-during-close", "connect-during-close", "connect-during-close", "connect-during-close"}
 	parallel := 8
 	if *rerun != "" {
 		// confirmation runs: the given scenarios only, nothing else running beside them
